@@ -15,8 +15,15 @@ def run(ck):
     drv = vlib.build_driver_so("drv_threads")
     t = os.path.join(ck.tdir, "threads.ndjson")
     nexec, rounds = (5, 10) if q else (40, 50)
+    hangs = 0
+
+    def hung(path):
+        return os.path.exists(path) and '"e":"Hang"' in open(path).read()[-400:]
     with open(t, "w") as out:
         for i in range(nexec):
+            if hangs >= 2:
+                ck.ev.notes.append("stopped starting executions after two that hung (each costs the 300 s join deadline)")
+                break
             ti = os.path.join(ck.tdir, "exec%d.ndjson" % i)
             d = vlib.run_driver(drv, [rounds, ck.seed * 1000 + i, ti], timeout=1500)
             if d["rc"] != 0:
@@ -24,6 +31,7 @@ def run(ck):
                 out.write(json.dumps({"e": "Crash", "how": "exit %s" % d["rc"], "stderr": d["err"][-800:]}) + "\n")
             else:
                 out.write(open(ti).read())
+            hangs += hung(ti)
             os.remove(ti)
         # cold starts: fresh processes whose very first library calls are concurrent (lazily initialised state, first-use races)
         reff = os.path.join(ck.tdir, "coldref.txt")
@@ -31,6 +39,8 @@ def run(ck):
         if d["rc"] != 0:
             raise vlib.InfraError("reference run failed rc=%s %s" % (d["rc"], d["err"][-800:]))
         for i in range(12 if q else 200):
+            if hangs >= 2:
+                break
             ti = os.path.join(ck.tdir, "cold%d.ndjson" % i)
             d = vlib.run_driver(drv, ["cold", ck.seed * 1000 + i, reff, ti], timeout=600)
             if d["rc"] != 0:
@@ -38,6 +48,7 @@ def run(ck):
                 out.write(json.dumps({"e": "Crash", "how": "exit %s" % d["rc"], "stderr": d["err"][-800:]}) + "\n")
             else:
                 out.write(open(ti).read())
+            hangs += hung(ti)
             if os.path.exists(ti):
                 os.remove(ti)
     ck.trace("threads", "Trace_Threads", "Trace.cfg", t, nchunks=16, boundary=lambda ln: '"Start"' in ln,
